@@ -27,12 +27,17 @@ use simcore::Obs;
 use crate::refmath::bi;
 use crate::world::{PosOps, Report, StepOutcome, World};
 
-fn liquidatable(w: &mut World, idx: usize, min_collateral: bool, for_liquidation: bool) -> Option<Option<String>> {
+/// `discount`: the order-fee discount of the user (the action under test ran with it; the store derives it from the
+/// user's referral / GT state, which is the same for a later liquidation check).
+fn liquidatable(w: &mut World, idx: usize, min_collateral: bool, for_liquidation: bool, discount: Option<u128>) -> Option<Option<String>> {
     let prices = w.prices;
     let (r, _, _, _) = w.run_tx(0, |w, _| {
         let mut pos = w.positions[idx];
+        w.market.order_discount = discount;
         let ops = PosOps { market: &mut w.market, pos: &mut pos, inner: vec![] };
-        ops.check_liquidatable(&prices, min_collateral, for_liquidation)
+        let r = ops.check_liquidatable(&prices, min_collateral, for_liquidation);
+        w.market.order_discount = None;
+        r
     });
     r.ok().map(|x| x.map(|reason| format!("{reason:?}")))
 }
@@ -70,7 +75,7 @@ pub fn after_step(w: &World, out: &StepOutcome, obs: &mut Obs) {
                     return;
                 }
             }
-            match liquidatable(&mut f, idx, true, true) {
+            match liquidatable(&mut f, idx, true, true, out.order_discount) {
                 Some(reason) => {
                     obs.require(
                         reason.is_some(),
@@ -94,7 +99,7 @@ fn check_left(w: &World, out: &StepOutcome, idx: usize, is_increase: bool, obs: 
     }
     let op = if is_increase { "increase" } else { "decrease" };
     let mut f = w.fork();
-    match liquidatable(&mut f, idx, is_increase, false) {
+    match liquidatable(&mut f, idx, is_increase, false, out.order_discount) {
         Some(r) => {
             obs.require(
                 r.is_none(),
@@ -106,7 +111,7 @@ fn check_left(w: &World, out: &StepOutcome, idx: usize, is_increase: bool, obs: 
         }
         None => obs.probe("c09_post_state_check_not_computable"),
     }
-    if let Some(r) = liquidatable(&mut f, idx, true, true) {
+    if let Some(r) = liquidatable(&mut f, idx, true, true, out.order_discount) {
         let c = &w.cfg.market.position;
         let stricter = c.min_collateral_factor_for_liquidation.map(|x| x.0 > c.min_collateral_factor.0).unwrap_or(false);
         obs.require(
